@@ -54,7 +54,7 @@ static bool nontrivial(const gc::LibSpec& s, uint64_t max_points) {
         if (e.coord == gc::HALF) return true;
         if ((e.kind == gc::LABEL || e.kind == gc::REFERENCE) && (e.rot != 0 || e.mag != 0 || e.refl != 0)) return true;
         if (e.props >= 3) return true;  // two GDSII properties, or general properties mixed with GDSII ones
-        if (e.xf != 0 || e.off != 0) return true;
+        if (e.xf != 0 || e.off != 0 || e.jog != 0) return true;
         if (e.kind != gc::POLYGON && e.n > 8190 / 4) return true;  // centre line split over several XY records
     }
     return false;
@@ -91,7 +91,7 @@ static std::string lattice_state(const Library& l) {
 }
 static JFields tags_of(const gc::LibSpec& s, uint64_t max_points, const std::string& stage, const std::string& what, const std::string& lattice) {
     JFields t = {{"stage", jstr(stage)}, {"what", jstr(what)}, {"kinds", jstr(kinds_of(s))}, {"max_points", jint((int64_t)max_points)}, {"lattice_after_first_load", jstr(lattice)},
-                 {"unit", jnum(gc::lib_units[s.libcfg][0])}, {"precision", jnum(gc::lib_units[s.libcfg][1])}, {"names", jstr(s.namepar ? "even" : "odd")}};
+                 {"unit", jnum(gc::lib_units[s.libcfg][0])}, {"precision", jnum(gc::lib_units[s.libcfg][1])}, {"names", jstr(s.namepar ? "even" : "odd")}, {"reload_tolerance", jstr(s.readtol ? "default" : "1e-6")}};
     for (size_t i = 0; i < s.elems.size(); i++) {
         const gc::Elem& e = s.elems[i];
         std::string p = s.elems.size() > 1 ? fmt("e%zu.", i) : "";
@@ -101,6 +101,7 @@ static JFields tags_of(const gc::LibSpec& s, uint64_t max_points, const std::str
         if (e.kind == gc::POLYGON) t.push_back({p + "vertices", jint(e.n)});
         if (e.kind == gc::FLEX_SIMPLE || e.kind == gc::ROBUST_SIMPLE) { t.push_back({p + "end", jstr(gc::end_names[e.end])}); t.push_back({p + "scale_width", jbool(e.sw)}); }
         if (e.kind >= gc::FLEX_SIMPLE && e.kind <= gc::ROBUST_OUTLINE) { t.push_back({p + "transformed_by", jstr(gc::xf_names[e.xf])}); t.push_back({p + "element_offset", jbool(e.off)}); }
+        if (e.kind == gc::FLEX_SIMPLE && e.jog) { t.push_back({p + "jog", jstr(e.jog == 1 ? "along" : "across")}); t.push_back({p + "jog_length", jstr(e.jogstep == 0 ? "below_grid_step" : e.jogstep == 1 ? "grid_step" : "above_grid_step")}); t.push_back({p + "spine_tolerance", jstr(e.srctol ? "grid_step" : "1e-5")}); }
         if (e.kind == gc::LABEL || e.kind == gc::REFERENCE) { t.push_back({p + "rotation", jstr(gc::rot_names[e.rot])}); t.push_back({p + "magnification", jnum(gc::mag_value(e))}); t.push_back({p + "x_reflection", jbool(e.refl)}); }
         if (e.kind == gc::LABEL) t.push_back({p + "anchor", jint(gc::anchors[e.anchor])});
         if (e.kind == gc::REFERENCE) t.push_back({p + "target", jstr(e.target ? "absent_by_name" : "present_by_pointer")});
@@ -149,7 +150,7 @@ static void run_case(const std::string& sub, int64_t index, uint64_t max_points,
         const Library* from = c == 1 ? src : &loaded.back();
         ErrorCode wrc = from->write_gds(fn.c_str(), max_points, &ts);
         ErrorCode rrc = ErrorCode::NoError;
-        Library l = read_gds(fn.c_str(), 0, 1e-6, NULL, &rrc);
+        Library l = read_gds(fn.c_str(), 0, spec.readtol ? 0 : 1e-6, NULL, &rrc);
         loaded.push_back(l);
         if (c == 1) lattice = lattice_state(l);
         bool wok = wrc == ErrorCode::NoError || wrc == ErrorCode::UnofficialSpecification;
